@@ -384,6 +384,14 @@ def exec_wrong_ext(case, obs):
 # ------------------------------------------------------------------------------------------------------------------
 
 
+def _layout_family(wr, exec_write_read, d_wr):
+    """write-read on a strided sub-space, with the array handed over Fortran-ordered / as a strided view"""
+    from ..engine import with_array_layouts
+    from ..space import Listed
+    base = Family("write-read", Listed([wr[i] for i in range(0, len(wr), 7)]), exec_write_read, describe=d_wr)
+    return with_array_layouts(base, expect=("header-dims", "voxel-offsets", "read-values"))
+
+
 def families(tier, seed):
     sizes = [1, 2, 3, 5] if tier == "quick" else [1, 2, 3, 5, 7, 48]
     shapes = sorted(((x, y, z) for x in sizes for y in sizes for z in sizes), key=lambda s: (s[0] * s[1] * s[2], s))
@@ -427,4 +435,5 @@ def families(tier, seed):
                expect=("header-dims", "voxels-preserved", "voxels-negated-iff-invert", "refuses-overwrite", "output-name", "explicit-name-only",
                        "input-file-untouched", "converted-read-values")),
         Family("wrong-extension", we, exec_wrong_ext, describe=d_we, expect=("wrong-ext-raise-or-right",)),
+        _layout_family(wr, exec_write_read, d_wr),
     ]
